@@ -15,7 +15,7 @@ import tempfile
 from harness.lib import hx, cz, clist
 
 ID = 'C04'
-RULE = ('[every index spelling: slice, mask as ndarray / list of bools / list of np.bool_, ints as list / list of np ints / ndarray of 9 int dtypes / empty list, single; fields looked at before a selection + attribute assignment; sessions: several tables derived from one source, source/intermediate tables written after the derived ones; selections that keep first+last record and permute / repeat equal-length inner records] files of 1-5 records for BED/BED6/narrowPeak/VCF(VCFBuffer and VCFBuffer2, with and without genotype columns)/SAM '
+RULE = ('[every index spelling: slice, mask as ndarray / list of bools / list of np.bool_, ints as list / list of np ints / ndarray of 9 int dtypes / empty list, single; fields looked at before a selection + attribute assignment; sessions: several tables derived from one source, source/intermediate tables written after the derived ones; selections that keep first+last record and permute / repeat equal-length inner records; round 6: FASTQ/FASTA replaced fields (lazy) and np.concatenate (eager) incl. quality on eager tables, CRLF VCFBuffer2/SAM replaced fields, with empty sequences, one-record files, empty/short/long replacement texts, first/last field, repeats then replacement, table ++ table, nested concatenations, operands with replaced columns] files of 1-5 records for BED/BED6/narrowPeak/VCF(VCFBuffer and VCFBuffer2, with and without genotype columns)/SAM '
         '(0-3 optional tags)/GTF/FASTQ(+name lines)/two-line FASTA/BAM with non-canonical spellings (leading zeros, +5, 1e3), '
         'LF and CRLF; programs = trees of selections (slice, step incl. negative, mask, int list with repeats, single index), '
         'concatenations (2-3 operands), replacements of 1-3 fields and intermediate writes; exhaustive index-menu programs of '
@@ -29,16 +29,18 @@ ASSUMPTIONS = ['A-IO: the whole file reaches from_raw_buffer in one chunk (bnp.o
                'eager (parsed) tables: text -> value -> text is the identity except for int columns (re-spelled canonically)']
 PARTIAL = ['END-TO-END THEOREMS (file bytes -> written bytes satisfy the byte-level Spec, files of any size): every accepted program incl. '
            'field replacements for BED/BED6/narrowPeak (columns = entry fields), VCFBuffer on 8-column files (C04_delimited_program_end_to_end; '
-           'LF both variants, CRLF repaired extractor), VCFBuffer2 with genotype columns (C04_vcf2_program_end_to_end, LF) and SAM with optional '
-           'tags (C04_sam_program_end_to_end, LF, repaired join; without replacement also CRLF: C04_sam_crlf_end_to_end); every selection program for FASTQ / two-line FASTA incl. CRLF '
-           '(C04_oneline_end_to_end) and BAM (C04_bam_end_to_end)',
-           'still correspondence-only at byte level: FASTQ/FASTA with replaced fields or after np.concatenate (eager path), CRLF for VCFBuffer2/SAM '
-           'with replaced fields, GTF (read eagerly: known finding), BedBuffer/VCFBuffer files with more columns than the entry type under '
-           'replacement (known finding: trailing columns dropped); for these the abstraction-level '
+           'LF both variants, CRLF repaired extractor), VCFBuffer2 with genotype columns (C04_vcf2_program_crlf_end_to_end, LF and CRLF), SAM with optional '
+           'tags (C04_sam_program_crlf_end_to_end, LF and CRLF, repaired join), FASTQ / two-line FASTA incl. replaced fields and np.concatenate '
+           '(eager from_data path), LF and CRLF (C04_oneline_program_end_to_end, invariant C04_oneline_rows); every selection program for BAM (C04_bam_end_to_end)',
+           'still correspondence-only at byte level: GTF (read eagerly: known finding), BedBuffer/VCFBuffer files with more columns than the entry '
+           'type under replacement (known finding: trailing columns dropped); for these the abstraction-level '
            'theorem C04_program_write + the per-file hypothesis check Corr.C04.hyp_ok + spec_ok per case apply',
+           'C04_fastq_lazy_quality_refuted: a LAZY FASTQ table with a replaced quality column cannot be written (get_column raises on the RaggedArray of '
+           'qualities); modelled as a refusal, proposed finding C04-fastq-lazy-quality-replace-refused (notes/C04.findings.json) — generated only once that id '
+           'is listed in known_findings.json / VERIF_EXTRA_FINDINGS; quality replacement on eager tables (after np.concatenate) is generated and proved',
            'refuted for the code before fix-1/fix-2 (kept as history, explicit `pinned` variant): C04_crlf_selection_pinned_refuted, '
            'C04_sam_replace_pinned_refuted; still refuted at HEAD: C04_trailing_columns_pinned_refuted, C04_gtf_pinned_refuted',
-           'concatenation of operands that already carry replaced fields is outside the model (C05 covers it)']
+           'concatenation of tabular operands (BED/VCF/SAM) that already carry replaced fields, and of mixed lazy/eager one-line operands, is outside the model (C05 covers the former)']
 PER_FILE = 24
 
 # ----------------------------------------------------------------------------- formats
@@ -405,7 +407,124 @@ def generate(tier, seed):
                 sel2 = _resolve(spec2, len(sel))
                 p = ['idx', spec2, sel2, p]
             cases.append(_mk(f, p))
+    # (6) round 6 — the classes that now have byte-level theorems, with boundary inputs:
+    #     FASTQ / two-line FASTA with replaced fields (lazy) and after np.concatenate (eager, from_data), CRLF VCFBuffer2 / SAM
+    #     with replaced fields: empty sequences, one-record files, replacement by longer / shorter / empty texts, the first
+    #     and the last field of the record, selections with repeats followed by replacement (and the converse),
+    #     concatenation of a table with itself, nested concatenations, operands that carry replaced columns
+    cases += _gen_round6(rng, quick)
     return cases
+
+
+QUAL = (2, 'quality', 'qual')
+TEXTS = {'id': ['', 'x', 'a_much_longer_name 12/1'], 'str': ['', 'A', 'ACGTACGTACGTNNAC'], 'qual': ['', 'I', '#5?+@II5#'],
+         'int': [0, 7, 123456789], 'int1': [0, 7, 123456789]}
+LAZY_QUALITY_FINDING = 'C04-fastq-lazy-quality-replace-refused'
+
+
+def _lazy_quality_listed():
+    """the refused write of a lazy FASTQ table with replaced qualities is generated only once it is a listed finding"""
+    import json
+    ids = set()
+    root = os.path.dirname(os.path.dirname(os.path.dirname(os.path.abspath(__file__))))
+    for q in (os.path.join(root, 'known_findings.json'), os.environ.get('VERIF_EXTRA_FINDINGS')):
+        try:
+            d = json.load(open(q))
+            for e in (d.get('findings', []) if isinstance(d, dict) else d):
+                if isinstance(e, dict) and 'id' in e:
+                    ids.add(e['id'])
+        except Exception:
+            pass
+    return LAZY_QUALITY_FINDING in ids
+
+
+def _boundary_file(fmt, rng, n, eol, k):
+    """n records; record (k mod n) has an empty sequence (FASTQ/FASTA), SAM: first record without tags"""
+    shape = {'samples': 1 + k % 3}
+    f = _gen_file(fmt, rng, n, eol, **shape)
+    r = f['recs'][k % n]
+    if fmt == 'fastq':
+        r['cols'][1] = ''
+        r['cols'][3] = ''
+    elif fmt == 'fasta':
+        r['cols'][1] = ''
+    elif fmt == 'sam':
+        f['recs'][0]['cols'] = f['recs'][0]['cols'][:11]
+    return f
+
+
+def _texts(kind, n, k):
+    """n replacement texts: all empty / all short / all long / mixed, by k"""
+    t = TEXTS[kind]
+    if k % 4 == 3:
+        return [t[(i + k) % 3] for i in range(n)]
+    return [t[k % 4]] * n
+
+
+def _r6_repl(fld, n, k, p):
+    j, name, kind = fld
+    return ['repl', j, name, kind, _texts(kind, n, k), p]
+
+
+def _gen_round6(rng, quick):
+    out = []
+    k = 0
+    lazyq = _lazy_quality_listed()
+    for fmt in ('fastq', 'fasta'):
+        flds = list(FIELDS[fmt]) + ([QUAL] if fmt == 'fastq' else [])
+        first, last = flds[0], flds[-1]
+        for eol in ('lf', 'crlf'):
+            for n in (1, 2, 3):
+                for rep in range(1 if quick else 3):
+                    f = _boundary_file(fmt, rng, n, eol, k)
+                    sel = [n - 1, 0, 0]
+                    S = ['idx', ['list', sel], list(sel), ['src']]
+                    ident = ['idx', ['slice', None, None, None], list(range(n)), ['src']]
+                    for fld in flds:
+                        k += 1
+                        lazy_ok = fld is not QUAL or lazyq
+                        if lazy_ok:
+                            out.append(_mk(f, _r6_repl(fld, n, k, ['src'])))                        # replacement on the table as read
+                            out.append(_mk(f, _r6_repl(fld, 3, k + 1, S)))                          # repeats, then replacement
+                            out.append(_mk(f, ['idx', ['list', [2, 2, 0]], [2, 2, 0], _r6_repl(fld, 3, k + 2, S)]))   # ... then selection
+                            out.append(_mk(f, _r6_repl(fld, 3, k + 3, ['touch', S])))               # after an intermediate write
+                        both = ['cat', [['src'], ['src']]]
+                        out.append(_mk(f, _r6_repl(fld, 2 * n, k, both)))                          # table ++ table, replaced
+                        out.append(_mk(f, ['idx', ['list', [2 * n - 1, 0, 0, n]], [2 * n - 1, 0, 0, n], _r6_repl(fld, 2 * n, k + 3, both)]))
+                        out.append(_mk(f, _r6_repl(fld, 4, k + 1, ['touch', ['cat', [S, ['idx', ['list', [0]], [0], ['src']]]]])))
+                        if fld is not QUAL:
+                            other = last if fld is first else first
+                            if other is not QUAL or lazyq:
+                                out.append(_mk(f, _r6_repl(other, n, k + 2, _r6_repl(fld, n, k + 1, ['src']))))   # first and last field
+                            out.append(_mk(f, ['cat', [_r6_repl(fld, n, k + 3, ['src']), ['src']]]))                # operand with a replaced column
+                            out.append(_mk(f, ['cat', [_r6_repl(fld, 3, k, S), _r6_repl(fld, n, k + 1, ident)]]))
+                        out.append(_mk(f, _r6_repl(last, 2 * n, k + 2, _r6_repl(first, 2 * n, k + 3, both))))     # first and last, eager
+                    out.append(_mk(f, both))
+                    out.append(_mk(f, ['idx', ['list', [0, 2 * n - 1, 0]], [0, 2 * n - 1, 0], ['touch', both]]))
+                    out.append(_mk(f, ['cat', [['cat', [['src'], S]], ['cat', [ident]]]]))                         # nested, all operands eager
+                    out.append(_mk(f, ['cat', [['idx', ['list', []], [], ['src']], ['idx', ['array', []], [], ['src']]]]))
+                    out.append(_mk(f, ['cat', [['idx', ['list', []], [], ['src']], S, ['src']]]))
+    for fmt in ('vcf2', 'sam'):
+        flds = FIELDS[fmt]
+        first, last = flds[0], flds[-1]
+        for eol in ('crlf', 'lf'):
+            for n in (1, 2, 3):
+                for rep in range(1 if (quick or eol == 'lf') else 3):
+                    f = _boundary_file(fmt, rng, n, eol, k)
+                    sel = [n - 1, 0, 0]
+                    S = ['idx', ['list', sel], list(sel), ['src']]
+                    both = ['cat', [['src'], ['src']]]
+                    for fld in (first, last, flds[1 + k % (len(flds) - 2)]):
+                        k += 1
+                        out.append(_mk(f, _r6_repl(fld, n, k, ['src'])))
+                        out.append(_mk(f, _r6_repl(fld, 3, k + 1, S)))
+                        out.append(_mk(f, ['idx', ['list', [2, 2, 0]], [2, 2, 0], _r6_repl(fld, 3, k + 2, S)]))
+                        out.append(_mk(f, _r6_repl(fld, 3, k + 3, ['touch', S])))
+                        out.append(_mk(f, _r6_repl(fld, 2 * n, k, both)))
+                        out.append(_mk(f, ['idx', ['list', [2 * n - 1, 0, 0, n]], [2 * n - 1, 0, 0, n], _r6_repl(fld, 2 * n, k + 3, ['touch', both])]))
+                    out.append(_mk(f, _r6_repl(last, n, k + 2, _r6_repl(first, n, k + 1, ['src']))))
+                    out.append(_mk(f, _r6_repl(last, 2 * n, k, _r6_repl(first, 2 * n, k + 3, both))))
+    return out
 
 
 def _gen_file_eq(fmt, rng, eol):
@@ -508,6 +627,17 @@ def observe(case):
                 w.write(t)
             return q
 
+        def value_obj(kind, vals):
+            if kind in ('int', 'int1'):
+                return np.array(vals, dtype=int)
+            if kind == 'id':
+                return as_string_array(list(vals))
+            if kind == 'qual':      # FASTQ qualities: what table.quality holds — a RaggedArray of phred values
+                from npstructures import RaggedArray
+                flat = np.array([ord(ch) - 33 for x in vals for ch in x], dtype=np.uint8)
+                return RaggedArray(flat, [len(x) for x in vals])
+            return bnp.as_encoded_array(list(vals))
+
         def ev(p, src):
             k = p[0]
             if k == 'src':
@@ -534,24 +664,12 @@ def observe(case):
                 return t
             if k == 'set':          # attribute assignment on a freshly derived table: same meaning as bnp.replace
                 t = ev(p[5], src)
-                kind, vals = p[3], p[4]
-                if kind in ('int', 'int1'):
-                    v = np.array(vals, dtype=int)
-                elif kind == 'id':
-                    v = as_string_array(list(vals))
-                else:
-                    v = bnp.as_encoded_array(list(vals))
+                v = value_obj(p[3], p[4])
                 setattr(t, p[2], v)
                 return t
             if k == 'repl':
                 t = ev(p[5], src)
-                kind, vals = p[3], p[4]
-                if kind in ('int', 'int1'):
-                    v = np.array(vals, dtype=int)
-                elif kind == 'id':
-                    v = as_string_array(list(vals))
-                else:
-                    v = bnp.as_encoded_array(list(vals))
+                v = value_obj(p[3], p[4])
                 return bnp.replace(t, **{p[2]: v})
             raise ValueError(k)
         progs, writes = _session(case)
@@ -745,9 +863,21 @@ def _canon_int(t):
     return ('-' if neg and s != '0' else '') + s
 
 
+def _lazy_quality(p):
+    """the table written is a LAZY FASTQ table (no np.concatenate on the way) with a replaced quality column"""
+    while True:
+        if p[0] in ('src', 'cat', 'ref'):
+            return False
+        if p[0] == 'repl' and p[1] == 2:
+            return not _has(p[5], ('cat',))
+        p = p[-1]
+
+
 def _finding1(case, o):
     fmt = case['fmt']
     crlf = any(r['eol'] == 'crlf' for r in case['recs'])
+    if fmt == 'fastq' and o.get('error') in ('ValueError', 'TypeError') and _lazy_quality(case['prog']):
+        return LAZY_QUALITY_FINDING
     body = _body_of(case, o)
     if body is None:
         return None
